@@ -29,7 +29,7 @@ type renderer struct {
 	next *Gap   // gap override for the next token
 }
 
-func (r *renderer) inNL() bool { return len(r.nl) > 0 && r.nl[len(r.nl)-1] }
+func (r *renderer) inNL() bool  { return len(r.nl) > 0 && r.nl[len(r.nl)-1] }
 func (r *renderer) push(b bool) { r.nl = append(r.nl, b) }
 func (r *renderer) pop()        { r.nl = r.nl[:len(r.nl)-1] }
 
